@@ -2,6 +2,7 @@
 # imports confirmed seeded mutations from /tmp/seed_out/<prop>/mN into /verif/seeded/<prop>-mN/
 import os, re, json, shutil, sys, glob
 root = sys.argv[1] if len(sys.argv) > 1 else '/tmp/seed_out'
+tag = sys.argv[2] if len(sys.argv) > 2 else 'm'
 pk = {'dht':'.','bep44':'bep44','getput':'exts/getput','traversal':'traversal','krpc':'krpc','peer_store':'peer-store','k_nearest_nodes':'k-nearest-nodes','containers':'containers','types':'types','int160':'int160','transactions':'transactions'}
 for d in sorted(glob.glob(root+'/C*/m*')):
     prop = d.split('/')[-2]; m = d.split('/')[-1]
@@ -16,7 +17,8 @@ for d in sorted(glob.glob(root+'/C*/m*')):
         dw = 0
     if not (dw == 0 and sw == 0 and dm != 0):
         print('NOT CONFIRMED', d, dw, sw, dm); continue
-    out = '/verif/seeded/%s-%s' % (prop, m)
+    m_id = tag + m[1:]
+    out = '/verif/seeded/%s-%s' % (prop, m_id)
     os.makedirs(out, exist_ok=True)
     shutil.copy(d+'/patch.diff', out+'/patch.diff')
     demos = []
@@ -27,11 +29,11 @@ for d in sorted(glob.glob(root+'/C*/m*')):
     md = open(d+'/meta.md').read()
     files = sorted(set(re.findall(r'^\+\+\+ b/(\S+)', open(d+'/patch.diff').read(), re.M)))
     meta = {
-      'id': '%s-%s' % (prop, m), 'property': prop, 'files_touched': files,
+      'id': '%s-%s' % (prop, m_id), 'property': prop, 'files_touched': files,
       'demo': demos, 'demo_package_dir': pk.get(pkgname, '?'),
       'needs_to_manifest': 'see meta.md (written by the independent sub-agent that produced the change from the property text only)',
       'confirmed': {'demo_without_patch_exit': dw, 'suite_with_patch_exit': sw, 'demo_with_patch_exit': dm,
-                    'how': '/verif/seedconfirm.sh in a scratch git worktree of /repo HEAD (84cfcb7): demo test alone on the clean tree, then `git apply patch.diff`, `go build ./...`, `go test -vet=off -count=1 ./...` without the demo, then the demo test again', 'note': note},
+                    'how': '/verif/seedconfirm.sh in a scratch git worktree of /repo HEAD (current HEAD at the time): demo test alone on the clean tree, then `git apply patch.diff`, `go build ./...`, `go test -vet=off -count=1 ./...` without the demo, then the demo test again', 'note': note},
     }
     old = {}
     if os.path.exists(out+'/meta.json'):
